@@ -45,6 +45,14 @@ GramRank == M # <<>> => LET g == Gram(M, IdMat(N)) IN ElimOk(g) => RankOf(g) = R
 \* transposing does not change the rank
 TransposeRank == M # <<>> => RankOf(TLCEval(Transpose(M))) = Rank
 
-Obs == [n |-> N, M |-> M, rank |-> Rank, dim |-> N - Rank, ker |-> KerSeq]
+\* multiplying rows by non-zero factors changes neither the rank nor the kernel
+RowScaleInvariant == M # <<>> =>
+                       LET S == TLCEval([i \in 1..Len(M) |-> VScale(1 + (i % 2), M[i])])
+                       IN /\ ElimOk(S) => RankOf(S) = Rank
+                          /\ \A x \in Ker : MatVec(S, x) = ZeroVec(Len(M))
+
+\* rowscale: exact positive factors the harness multiplies row i by (same kernel expected)
+Obs == [n |-> N, M |-> M, rank |-> Rank, dim |-> N - Rank, ker |-> KerSeq,
+        rowscale |-> [i \in 1..Len(M) |-> FoPick(PosScaleTable, FoWeight(M) + i)]]
 EmitObs == M # <<>> => PrintT("OBS " \o ToJson(Obs))
 =============================================================================
